@@ -57,7 +57,7 @@ type VizErrPic struct {
 
 var typeByString = func() map[string]string {
 	m := map[string]string{}
-	for _, n := range []string{"T0", "T1", "T2", "T3", "T4", "T5", "T6", "T7", "I0", "I1", "I2", "IX"} {
+	for _, n := range []string{"T0", "T1", "T2", "T3", "T4", "T5", "T6", "T7", "V0", "V1", "I0", "I1", "I2", "IX"} {
 		m[univ.Type(n).String()] = n
 	}
 	return m
